@@ -74,9 +74,9 @@ def compare_reader(ctx, tag, mine, theirs, text, html=False):
         report("obs", "%d observations, %d read back" % (len(mine["obs"]), len(theirs["obs"])))
     else:
         for o, q in zip(mine["obs"], theirs["obs"]):
-            if not html and (o["type"] != q["type"] or o.get("from", "") != q["from"] or o.get("to", "") != q["to"] or o.get("left", "") != q["left"] or o.get("right", "") != q["right"]):
-                odd = any(" " in str(o.get(k_, "")) for k_ in ("from", "to", "left", "right"))
-                report("obs_ids_with_blank" if odd else "obs", "observation %s %s->%s read back as %s %s->%s" % (o["type"], o.get("from"), o.get("to"), q["type"], q["from"], q["to"]))
+            if not html and (o["type"] != q["type"] or o.get("from", o.get("id", "")) != q["from"] or o.get("to", "") != q["to"] or o.get("left", "") != q["left"] or o.get("right", "") != q["right"]):
+                odd = any(" " in str(o.get(k_, "")) for k_ in ("from", "to", "left", "right", "id"))
+                report("obs_ids_with_blank" if odd else "obs", "observation %s %s->%s read back as %s %s->%s" % (o["type"], o.get("from", o.get("id")), o.get("to"), q["type"], q["from"], q["to"]))
             for k in ("obs", "adj", "stdev"):
                 if k in o and not close(o[k], q[k], 2e-5 if html else 1e-12):
                     report("obs", "observation %s %s->%s %s: %r read back as %r" % (o["type"], o.get("from"), o.get("to"), k, o[k], q[k]))
@@ -87,6 +87,30 @@ def significant(a, b, digits):
     if a == b:
         return True
     return abs(a - b) <= 0.6 * 10.0 ** (math.floor(math.log10(max(abs(a), abs(b)))) - digits + 1)
+
+
+def check_xml_internal(ctx, tag, res, text):
+    """relations inside one XML result: the adjusted value of an observed coordinate is the adjusted coordinate of its point,
+    adjusted = approximate + correction is what <adjusted> holds, the covariance matrix has dim*(band+1) - band*(band+1)/2 elements"""
+    def report(chk, msg):
+        ctx.violation("xml_%s|%s" % (chk, tag), msg, replay={"gkf": text})
+    pts = {p["id"]: p for p in res["adjusted"]}
+    fixed = {p["id"]: p for p in res["fixed"]}
+    n = 0
+    for o in res["obs"]:
+        if o["type"] in ("coordinate-x", "coordinate-y", "coordinate-z"):
+            c = o["type"][-1]
+            p = pts.get(o.get("id"), fixed.get(o.get("id"), {}))
+            v = p.get(c, p.get(c.upper()))
+            if v is None:
+                continue
+            n += 1
+            if abs(o["adj"] - v) > 2e-6:
+                report("coordinate_obs", "observed coordinate %s of point %s: <adj> %r, adjusted coordinate of the point %r" % (c, o.get("id"), o["adj"], v))
+    dim, band = res["cov_dim"], res["cov_band"]
+    if dim is not None and len(res["cov"]) != dim * (band + 1) - band * (band + 1) // 2:
+        report("cov_count", "cov-mat dim %s band %s holds %d elements" % (dim, band, len(res["cov"])))
+    COUNTS["xml_coordinate_obs"] = COUNTS.get("xml_coordinate_obs", 0) + n
 
 
 def check_octave(ctx, tag, res, mtext, text):
@@ -172,11 +196,27 @@ COUNTS = {"text_coord_rows": 0, "text_obs_rows": 0, "compare_xyz_points": 0, "de
 TEXT_ROW = re.compile(r"^\s*(\d+)\s+(?:\S+\s+)?([xyzXYZ])\s+(?:\*\s+)?(-?\d+\.\d+)\s+(-?\d+\.\d+)\s+(-?\d+\.\d+)\s+(\d+\.\d+)\s+(\d+\.\d+)\s*$")
 
 
+HEIGHT_ROW = re.compile(r"^\s*(\d+)\s+\S+\s+(-?\d+\.\d+)\s+(-?\d+\.\d+)\s+(-?\d+\.\d+)\s+(\d+\.\d+)\s+(\d+\.\d+)\s*$")
+
+
 def check_text(ctx, tag, res, text_out, gkf):
     """English text listing against the XML: adjusted coordinates, their standard deviations, adjusted observations"""
     def report(chk, msg):
         ctx.violation("text_%s|%s" % (chk, tag), msg, replay={"gkf": gkf})
-    rows = [m.groups() for m in (TEXT_ROW.match(l) for l in text_out.split("\n")) if m]
+    sec, rows = False, []
+    for l in text_out.split("\n"):
+        if l.startswith("Adjusted coordinates") or l.startswith("Adjusted heights"):
+            sec = True
+        elif sec and re.match(r"^[A-Z][a-z]+ [a-z]", l) and not l.startswith("Adjusted coordinates"):
+            sec = False                                   # next section heading
+        elif sec:
+            m = TEXT_ROW.match(l)
+            if m:
+                rows.append(m.groups())
+            else:
+                m = HEIGHT_ROW.match(l)                   # levelling networks: one row per point, no coordinate letter
+                if m:
+                    rows.append((m.group(1), "z") + m.groups()[1:])
     order = [(p, c) for p, c in gl.unknown_order(res) if c != "ori"]
     if len(rows) != len(order):
         report("coords", "%d adjusted-coordinate rows in the text, %d adjusted coordinates in the XML" % (len(rows), len(order)))
@@ -201,9 +241,10 @@ def check_text(ctx, tag, res, text_out, gkf):
         return
     obsrows = []
     for l in lines[a:b]:
-        m = re.match(r"^\s*(\d+)\s+.*?(-?\d+\.\d+)\s+(-?\d+\.\d+)\s+(\d+\.\d+)\s+(\d+\.\d+)\s*$", l)
+        # a row ends with observed, adjusted, std.dev, conf.i.; the row of an angle has its index on the preceding line
+        m = re.match(r"^\s*(.*?)\s(-?\d+\.\d+)\s+(-?\d+\.\d+)\s+(\d+\.\d+)\s+(\d+\.\d+)\s*$", l)
         if m:
-            obsrows.append(m.groups())
+            obsrows.append((str(len(obsrows) + 1),) + m.groups()[1:])
     if len(obsrows) != len(res["obs"]):
         report("obs", "%d adjusted-observation rows in the text, %d observations in the XML" % (len(obsrows), len(res["obs"])))
         return
@@ -345,11 +386,15 @@ def run(ctx):
     # ---- networks
     r0, base = sessions.generate(ctx, "c12", {"Templates": '{"tri2d", "polar3d", "vec3d", "lev1d", "fstat2d"}', "NoiseSet": "{1, 2}", "MaxEdits": 0, "EditKinds": "{}",
                                               "KeepNet": 211 if q else 47, "KeepEdit": 1, "Seed": ctx.seed})
+    import hashlib
     nets = [s["net"] for s in base]
+    nets.sort(key=lambda n: hashlib.md5(json.dumps(n, sort_keys=True).encode()).hexdigest())       # deterministic mixing of templates and axes
     jobs, meta = [], []
     for k, sid in enumerate(strings):
         net = nets[k % len(nets)]
         sv = sessions.base_survey(net)
+        if (k // len(nets)) % 2 == 0:
+            sv = session.apply_edit(sv, {"k": "AddConsistentObs", "s": 9})        # all optional observations of the template (observed coordinates, azimuths, ...)
         # the k-th string becomes the id of the first unknown point, and (with a suffix) the description
         unk = [p for p in sv.pts if p["role"] == "unk"]
         sv.names[unk[0]["id"]] = sid
@@ -383,6 +428,7 @@ def run(ctx):
             ctx.violation("id_lost|chars:%s" % "".join(sorted(set(c for c in sid if c in "<>&'\""))), "point id %r appears in the result as %s" % (sid, ids), replay={"gkf": text})
         if (run.res["description"] or "").strip() != sv.extra_desc:
             ctx.violation("description_changed", "description %r appears in the result as %r" % (sv.extra_desc, run.res["description"]), replay={"gkf": text})
+        check_xml_internal(ctx, "%s|%s|%s" % (meta[k][1].t, "flipped" if session.inconsistent(meta[k][1]) else "consistent", "id"), run.res, text)
         if "octave" in run.files:
             cls = "".join(sorted(set(c for c in sid if c in "<>&'\""))) or "plain"
             noct += check_octave(ctx, "chars:" + cls, run.res, run.files["octave"].decode("utf-8", "replace"), text)
@@ -407,17 +453,20 @@ def run(ctx):
     sample_nets = nets[: 15 if q else 60]
     for ni, net in enumerate(sample_nets):
         sv = sessions.base_survey(net)
+        if ni % 2 == 0:
+            sv = session.apply_edit(sv, {"k": "AddConsistentObs", "s": 9})
         for lg in LANGS:
             lang_jobs.append({"gkf": sv.gkf(), "args": ["--language", lg, "--encoding", "utf-8"], "want": ["text", "xml"], "keep": True})
             lang_meta.append((ni, lg))
     lruns = gl.run_many(ctx, lang_jobs)
     ref = {}
-    for (ni, lg), run in zip(lang_meta, lruns):
+    for (ni, lg), run, job in zip(lang_meta, lruns, lang_jobs):
         toks = numeric_tokens(run.text or "")
         if lg == "en":
             ref[ni] = toks
             if run.res is not None and run.res.get("outcome") == "adjusted" and run.text:
-                check_text(ctx, sample_nets[ni]["t"], run.res, run.text, lang_jobs[0]["gkf"] if False else "")
+                check_text(ctx, sample_nets[ni]["t"], run.res, run.text, job["gkf"])
+                check_xml_internal(ctx, "%s|lang" % sample_nets[ni]["t"], run.res, job["gkf"])
     for (ni, lg), run in zip(lang_meta, lruns):
         toks = numeric_tokens(run.text or "")
         if toks != ref.get(ni) or not toks:
